@@ -19,7 +19,9 @@ import re
 from hypothesis import strategies as st
 
 from vf import cxx, enginea
-from vf.core import Ctx, Discard, Stats, Violation, derive_seed, hyp_search, jdump, run_shards
+import time
+
+from vf.core import Ctx, Discard, HarnessError, Stats, Violation, derive_seed, hyp_search, jdump, run_shards
 from vf.gen.query import dataset_text
 from vf.model.events import Event, events_strategy
 from vf.model.schema import standard_schema
@@ -298,9 +300,102 @@ def run(ctx: Ctx):
     payloads = [(derive_seed(ctx.seed, "C18", i), max(1, total // shards), ctx.deadline, BACKENDS[i % 2]) for i in range(shards)]
     for st_ in run_shards("vf.props.C18", "worker", payloads):
         ctx.stats.merge(st_)
+    fuzz_stage(ctx)
+
+
+def fuzz_stage(ctx: Ctx):
+    """the coverage-guided campaign (vf/fuzz/c18_target.py): quick = the committed corpus + a literal grid replayed in process through the
+    round-trip oracle; thorough = 16 atheris processes (libFuzzer, coverage feedback over func_adl_xAOD) started from that corpus"""
+    import glob
+    import json
+    import os
+    import shutil
+    import subprocess
+    import sys
+
+    from vf.core import VERIF
+    from vf.fuzz import c18_target as T
+
+    st_ = ctx.stats
+    import logging
+
+    logging.disable(logging.CRITICAL)
+    try:
+        corpus = sorted(glob.glob(os.path.join(VERIF, "fuzz", "C18", "corpus", "*")))
+        cases = []
+        try:
+            sys.path.insert(0, os.path.join(VERIF, ".deps"))
+            import atheris  # noqa
+
+            for f in corpus:
+                cases.append(T.decode(open(f, "rb").read()))
+            st_.extra["fuzz_corpus_replayed"] = len(corpus)
+        except ImportError:
+            st_.extra["fuzz_corpus_replayed"] = "atheris not importable (setup.sh installs it into .deps): corpus replay and campaign skipped"
+        grid_s = ['a', '"', "\\", "\n", "?", "é", "日本", "😀", "a b", "??=", "\x7f", "\x01", "\\n", "%s", "{{x}}", "/*", "//", "\x00", 'x"y\\', "it's", "\x1f7", "\udc80"]
+        grid_i = [0, 1, -1, -7, 2**31 - 1, -(2**31) + 1, 2**31, -(2**35)]
+        grid_f = [0.0, -0.0, 1.5, -1.5, 1e22, 1e-7, 5e-324, -5e-324, 1.7976931348623157e308, 0.1, 2.0, -3.0, float("inf"), float("nan")]
+        k = 0
+        for be in T.BACKENDS:
+            for pos in T.POSITIONS:
+                vals = grid_s if pos in ("bank", "tree", "colname", "str-arg", "attr") else (grid_f if pos.startswith("float") else grid_i)
+                for v in vals:
+                    k += 1
+                    cases.append({"backend": be, "wire": ("ast", "qastle")[k % 2], "position": pos, "lit": v})
+        for c in cases:
+            bad = T.roundtrip(c)
+            st_.case(jdump(["fuzz", c["backend"], c["wire"], c["position"], repr(c["lit"])]), interesting(c["lit"]), ["stage=fuzz-replay", "pos=" + c["position"], "backend=" + c["backend"]],
+                     {"stage": "fuzz-replay", "backend": c["backend"], "wire": c["wire"], "position": c["position"], "literal": repr(c["lit"])[:40]})
+            if bad:
+                st_.violation(bad[0], bad[1], T.case_to_json(c))
+    finally:
+        logging.disable(logging.NOTSET)
+    if ctx.quick or not isinstance(st_.extra.get("fuzz_corpus_replayed"), int):
+        return
+    runs = ctx.n(0, 1500)
+    work = os.path.join(VERIF, "out", "fuzz", "C18")
+    shutil.rmtree(work, ignore_errors=True)
+    procs = []
+    env = dict(os.environ, PYTHONPATH=os.pathsep.join([os.environ.get("VERIF_REPO", "/repo"), VERIF, os.path.join(VERIF, ".deps")]), PYTHONHASHSEED="0")
+    for i in range(16):
+        d = os.path.join(work, f"s{i}")
+        os.makedirs(os.path.join(d, "corpus"))
+        for f in corpus:
+            shutil.copy(f, os.path.join(d, "corpus"))
+        e = dict(env, VERIF_FUZZ_STATS=os.path.join(d, "stats.json"), VERIF_FUZZ_OUT=os.path.join(d, "bad.json"))
+        cmd = [sys.executable, "-m", "vf.fuzz.c18_target", f"-runs={runs}", f"-seed={derive_seed(ctx.seed, 'C18fuzz', i) % (2**31 - 1) + 1}", "-max_len=96", "-len_control=0",
+               f"-artifact_prefix={d}/crash_", os.path.join(d, "corpus")]
+        procs.append((d, subprocess.Popen(cmd, env=e, cwd=VERIF, stdout=subprocess.DEVNULL, stderr=open(os.path.join(d, "log"), "w"))))
+    execs = nontriv = 0
+    for d, p in procs:
+        left = max(30.0, ctx.deadline - time.time())
+        try:
+            p.wait(timeout=left)
+        except subprocess.TimeoutExpired:
+            p.kill()
+            st_.inconclusive = True
+        try:
+            j = json.load(open(os.path.join(d, "stats.json")))
+            execs += j["n"]
+            nontriv += j["nontrivial"]
+        except Exception:
+            pass
+        if os.path.exists(os.path.join(d, "bad.json")):
+            b = json.load(open(os.path.join(d, "bad.json")))
+            st_.violation(b["key"], b["what"], b["case"])
+        elif p.returncode not in (0, None, -9):
+            tail = open(os.path.join(d, "log")).read()[-400:]
+            raise HarnessError(f"fuzz process ended with status {p.returncode} without a finding: {tail}")
+    st_.extra["fuzz_campaign"] = {"engine": "atheris (libFuzzer) with coverage feedback over func_adl_xAOD", "processes": 16, "runs_each": runs, "executions": execs,
+                                  "executions_nontrivial_literal": nontriv, "corpus_seed_files": len(corpus)}
 
 
 def replay(case):
+    if case.get("fuzz"):
+        from vf.fuzz import c18_target as T
+
+        bad = T.roundtrip(T.case_from_json(case))
+        return [{"key": bad[0], "what": bad[1]}] if bad else []
     q = ast.parse(case["query"], mode="eval").body
     if case.get("neg_const"):
         # the case held negative numbers as Constant nodes (what a captured python variable becomes); the parser gives a unary minus: fold it back
